@@ -558,13 +558,22 @@ def _changed(r: Any) -> Optional[bool]:
     return bool(r)
 
 
+ENCODED_FILE = "vsm_legacy_encoding.py"  # written in the encoding its PEP 263 cookie declares
+
+
+def _file_bytes(rel: str, text: str) -> bytes:
+    if rel.endswith(ENCODED_FILE):
+        return text.encode("cp1252")
+    return text.encode("utf-8", "surrogateescape")
+
+
 def materialise(root: str, files: Dict[str, str]) -> None:
     shutil.rmtree(root, ignore_errors=True)
     for rel, text in files.items():
         p = os.path.join(root, rel)
         os.makedirs(os.path.dirname(p), exist_ok=True)
-        with builtins.open(p, "w", encoding="utf-8", newline="") as f:
-            f.write(text)
+        with builtins.open(p, "wb") as f:
+            f.write(_file_bytes(rel, text))
 
 
 def read_tree(root: str) -> Dict[str, str]:
@@ -630,6 +639,7 @@ def cli_run(spec: Dict[str, Any]) -> Dict[str, Any]:
         e = dict(ev)
         for k in ("old", "new"):
             if k in e:
+                e[k + "_bytes"] = e[k]  # validity is judged on the bytes (PEP 263 cookie, BOM)
                 e[k] = e[k].decode("utf-8", "surrogateescape")
         events.append(e)
     return {
@@ -748,6 +758,9 @@ def gen_tree(rng: random.Random, profile: str) -> Dict[str, Any]:
                 files[rel] = "\n".join(lines)
     if rng.random() < 0.1:
         files["vsm_broken.py"] = "def broken(:\n    pass\n"  # file-level invalid input
+    if profile in ("base", "stagefault") and rng.random() < 0.1:
+        # a valid file that is not UTF-8: cp1252 bytes under a PEP 263 cookie, with something to fix in it
+        files[ENCODED_FILE] = "# -*- coding: cp1252 -*-\n# caf\xe9 \xcd\ndef legacy(x):\n    if x == None:\n        return 1\n    else:\n        return 2\n\n\nprint(legacy(3))\n"
     return {"files": files}
 
 
@@ -845,7 +858,7 @@ def _argv(case: Dict[str, Any], paths: List[str], root: str, n_cores: int) -> Li
     return argv
 
 
-def _parses(text: str) -> bool:
+def _parses(text) -> bool:
     try:
         ast.parse(text)
         return True
@@ -887,7 +900,7 @@ def monitor_fs(case: Dict[str, Any], run: Dict[str, Any], stats: C.Counter, faul
     for ev in run["events"]:
         if ev["op"] != "CLOSE":
             continue
-        old, new = ev.get("old", ""), ev.get("new", "")
+        old, new = ev.get("old_bytes", b""), ev.get("new_bytes", b"")
         stats.inc("guard.writes_checked")
         if new == old:
             v.append({"class": "rewrote-unchanged-file", "detail": f"{ev['path']} was opened for writing although the formatted text equals its content (pass {ev['pass']})", "props": ["C03"]})
